@@ -44,12 +44,19 @@ pub fn run() {
                 Some(c) => {
                     let mut best = f64::MAX;
                     let mut names: Vec<(String, f64)> = vec![];
+                    let mut differs: Vec<(f64, f64)> = vec![];
                     // distances by the independent transcription of the Sharma-Wu-Dalal formula (sharma.rs)
                     // on the Lab coordinates, not by the library's own colour-distance function
                     let lc = c.to_lab();
                     for nc in pastel::named::NAMED_COLORS.iter() {
                         let ln = nc.color.to_lab();
                         let d = crate::sharma::ciede2000([ln.l, ln.a, ln.b], [lc.l, lc.a, lc.b]);
+                        // does the library's own formula differ from the transcription by more than C11 allows? (a hint
+                        // for the directed search of C18; pairs with exactly opposite hues excepted)
+                        let dl = pastel::delta_e::ciede2000(&ln, &lc);
+                        if (dl - d).abs() > 1e-3 && (crate::sharma::hue_gap([ln.l, ln.a, ln.b], [lc.l, lc.a, lc.b]) - 180.0).abs() > 1e-9 {
+                            differs.push((d, (dl - d).abs()));
+                        }
                         names.push((nc.name.to_string(), d));
                         if d < best {
                             best = d;
@@ -58,7 +65,9 @@ pub fn run() {
                     // 0.001 is the key resolution of the name lookup, another 0.001 the agreement C11 allows between the two formulas
                     let within: Vec<String> = names.iter().filter(|(_, d)| *d <= best + 0.002).map(|(n, _)| n.clone()).collect();
                     let exact: Vec<String> = pastel::named::NAMED_COLORS.iter().filter(|nc| nc.color.to_rgba() == c.to_rgba()).map(|nc| nc.name.to_string()).collect();
-                    format!("ok {} {} {}", crate::wire::f(best), within.join(","), if exact.is_empty() { "-".to_string() } else { exact.join(",") })
+                    format!("ok {} {} {} {}", crate::wire::f(best), within.join(","), if exact.is_empty() { "-".to_string() } else { exact.join(",") },
+                        // the risk: the largest such difference on a name that competes for the choice (within 2 units of the nearest), in 1e-6 units
+                        (differs.iter().filter(|(d, _)| *d <= best + 2.0).map(|(_, e)| *e).fold(0.0, f64::max) * 1e6) as u64)
                 }
                 None => "none".to_string(),
             },
